@@ -467,7 +467,11 @@ class ChirpZTransformExecutor:
         # float32 chirps to float64, and hashes equal to the python number in the cache key
         Q = tuple(float(q) for q in Q)
 
+        # the chirps are built in the dtype of the input; an integer or boolean
+        # array (an aperture mask) has no such floating point dtype of its own
         dtype = ary.dtype
+        if dtype.kind not in 'fc':
+            dtype = np.dtype(config.precision)
 
         m, n = ary.shape
         M, N = samples_out
